@@ -583,10 +583,10 @@ func (w *World) checkNodeTypeTests(P string, f *Facts, r *Roles) {
 		})
 		if iface == "" {
 			ok := len(asserted) == 0 && !storesResult
-			w.check(P, "R01.10", "node type "+t, ifi.Pos(), ok, fmt.Sprintf("node() must keep every node: type assertions in arm %v, stores result in arm: %v", keys(asserted), storesResult))
+			w.check(P, "R01.10", "node type "+t, ifPos(ifi), ok, fmt.Sprintf("node() must keep every node: type assertions in arm %v, stores result in arm: %v", keys(asserted), storesResult))
 		} else {
 			ok := len(asserted) == 1 && asserted[iface]
-			w.check(P, "R01.10", "node type "+t, ifi.Pos(), ok, fmt.Sprintf("arm filters by %v, XPath requires node.%s", keys(asserted), iface))
+			w.check(P, "R01.10", "node type "+t, ifPos(ifi), ok, fmt.Sprintf("arm filters by %v, XPath requires node.%s", keys(asserted), iface))
 		}
 	}
 	for t := range arms {
